@@ -5,6 +5,7 @@ use quote::ToTokens;
 use std::collections::{BTreeMap, BTreeSet};
 use syn::*;
 
+mod ctrl;
 mod loops;
 pub(crate) use loops::Sort;
 
@@ -63,13 +64,19 @@ fn is_cfg_test(attrs: &[Attribute]) -> bool {
     attrs.iter().any(|a| a.path().is_ident("cfg") && a.meta.to_token_stream().to_string().contains("test"))
 }
 
-/// never attempted: hidden state behind lifetimes
-const HAND_TYPES: &[&str] = &["PiecewiseEvaluator"];
+/// never attempted
+const HAND_TYPES: &[&str] = &[];
+/// read-only views with a cursor (`&'a [X]` fields, `&mut self` methods that return a value): loop subset,
+/// emitted with their structure declaration into `<Module>/Evaluator.lean`
+const STATE_TYPES: &[&str] = &["PiecewiseEvaluator"];
+/// trait impls of the loop types that go through the loop subset into `<Module>/Merge.lean`
+/// (index loops with two cursors)
+const MERGE_TRAITS: &[&str] = &["Add", "Sub"];
 /// types whose impls use loops / iterators / slices: translated through the loop subset
 /// (`emit/loops.rs`) into `<Module>/Loops.lean`
 const LOOP_TYPES: &[&str] = &["Piecewise", "PolyN"];
-/// trait impls of the loop types that stay hand-modelled (index loops with two cursors, `Arbitrary`)
-const HAND_TRAITS: &[&str] = &["Add", "Sub", "Arbitrary"];
+/// trait impls of the loop types that stay hand-modelled (`Arbitrary`: external crate)
+const HAND_TRAITS: &[&str] = &["Arbitrary"];
 const HAND_FNS: &[&str] = &[];
 /// free functions translated through the loop subset
 const LOOP_FNS: &[&str] = &["linear", "constrained_spline"];
@@ -153,6 +160,8 @@ struct BodyCx {
     allow_return: bool,
     /// sibling methods whose translation failed
     bad_siblings: BTreeSet<String>,
+    /// `&mut` parameters (Lean names) that are returned next to the result: `return e` yields `(e, p…)`
+    ret_extra: Vec<String>,
 }
 
 impl BodyCx {
@@ -173,6 +182,7 @@ impl BodyCx {
             reads: vec![],
             allow_return: false,
             bad_siblings: BTreeSet::new(),
+            ret_extra: vec![],
         }
     }
     fn declare(&mut self, n: &str) {
@@ -420,9 +430,16 @@ impl Translator {
                     let n = f.sig.ident.to_string();
                     let ftoks = f.to_token_stream().to_string();
                     let q = format!("{qual}::{n}");
-                    if base == "Segment" || is_loop_type {
+                    let is_state_type = STATE_TYPES.contains(&base.as_str());
+                    if base == "Segment" || is_loop_type || is_state_type {
                         // iterator adaptors with captured state, slices, …: loop subset
-                        let lean_file = format!("{module}/Loops");
+                        let lean_file = if is_state_type { format!("{module}/Evaluator") } else { format!("{module}/Loops") };
+                        if is_state_type && !self.chunks.contains_key(&lean_file) {
+                            match self.render_view_struct(&base) {
+                                Ok(decl) => self.push_chunk_ranked(&lean_file, 0, decl),
+                                Err(e) => self.push_chunk_ranked(&lean_file, 0, format!("-- struct {base}: {e}\n")),
+                            }
+                        }
                         let ln = format!("{base}.{}", lean_ident(&n));
                         let ret = match &f.sig.output {
                             ReturnType::Type(_, t) => self.sort_of_type(t, &TyCtx::default()),
@@ -433,7 +450,7 @@ impl Translator {
                         match r {
                             Ok((text, fallible)) => {
                                 // functions of the element type are callees of the impls of the loop types
-                                self.push_chunk_ranked(&lean_file, if is_loop_type { 300 } else { 5 }, text);
+                                self.push_chunk_ranked(&lean_file, if is_loop_type || is_state_type { 300 } else { 5 }, text);
                                 self.tags.entry(lean_file.clone()).or_default().push(ln.clone());
                                 self.record(q, fname, "translated", String::new(), ftoks, &lean_file, &ln);
                                 lf.ok = true;
@@ -767,7 +784,7 @@ impl Translator {
         let module = module_name(fname);
         let self_m = mangle(&im.self_ty);
         let inst_name = format!("inst_{trait_name}_{self_m}");
-        let lean_file = format!("{module}/Loops");
+        let lean_file = if MERGE_TRAITS.contains(&trait_name) { format!("{module}/Merge") } else { format!("{module}/Loops") };
         let all: Vec<&ImplItemFn> = im
             .items
             .iter()
@@ -1018,10 +1035,16 @@ impl Translator {
             ReturnType::Default => "Unit".to_string(),
             ReturnType::Type(_, t) => ty_to_lean(t, &cx.tcx, &self.structs)?,
         };
+        // `fn f(&mut self, ..) -> R`: the new `self` is returned next to the result, like a `&mut` parameter
+        let valued_mut = self_mut && !matches!(f.sig.output, ReturnType::Default);
+        let self_out: Vec<(String, String)> = if valued_mut { vec![("self".to_string(), cx.tcx.self_ty.clone().unwrap_or_default())] } else { vec![] };
+        if valued_mut {
+            ret = format!("({ret} × {})", self_out[0].1);
+        }
         if opt {
             ret = format!("(Option {ret})");
         }
-        let body = self.fn_body(&f.block, &mut cx, self_mut, &[])?;
+        let body = self.fn_body(&f.block, &mut cx, self_mut && !valued_mut, &self_out)?;
         let b = Self::binder_text(&tyvars, &insts);
         Ok(format!("def {base}.{} {b} {} : {ret} :=\n{}\n", lean_ident(&f.sig.ident.to_string()), binders.join(" "), indent(&body, 2)))
     }
@@ -1054,7 +1077,8 @@ impl Translator {
     fn fn_body(&self, block: &Block, cx: &mut BodyCx, self_mut: bool, mut_params: &[(String, String)]) -> R<String> {
         // in Option mode a plain result is produced by `expr_opt` (branches stay branches)
         let tail_opt = cx.opt_mode && !self_mut && mut_params.is_empty();
-        cx.allow_return = !self_mut && mut_params.is_empty();
+        cx.allow_return = !self_mut;
+        cx.ret_extra = mut_params.iter().map(|(n, _)| n.clone()).collect();
         let (mut lines, tail) = self.block_lines(&block.stmts, cx, self_mut, tail_opt)?;
         let result = if self_mut {
             if let Some(t) = tail {
@@ -1133,6 +1157,7 @@ impl Translator {
                 let sort = self.sort_of(init, cx);
                 let e = match strip_paren(init) {
                     Expr::Block(b) if b.label.is_none() && cx.opt_mode => self.block_initialiser(&b.block, cx, lines)?,
+                    ctrl if Self::is_ctrl(ctrl) => self.ctrl_value(ctrl, cx, lines)?,
                     _ => self.expr(init, cx)?,
                 };
                 self.flush(cx, lines);
@@ -1154,7 +1179,7 @@ impl Translator {
             }
             Pat::Tuple(pt) => {
                 let init = strip_paren(init);
-                let Expr::Tuple(et) = init else { return Err("tuple pattern with non-tuple initialiser".into()) };
+                let Expr::Tuple(et) = init else { return self.let_pair(pt, init, cx, lines) };
                 if et.elems.len() != pt.elems.len() {
                     return Err("tuple arity".into());
                 }
@@ -1250,6 +1275,20 @@ impl Translator {
                     BinOp::MulAssign(_) => "PMulAssign.mulAssign",
                     _ => return Err("expression statement without effect".into()),
                 };
+                if self.sort_of(&b.left, cx) == Sort::Nat {
+                    // `i += n` on usize (unbounded, see PP/Core/Iter.lean)
+                    let op = match b.op {
+                        BinOp::AddAssign(_) => "+",
+                        BinOp::MulAssign(_) => "*",
+                        _ => return Err("`-=` on usize".into()),
+                    };
+                    if self.sort_of(&b.right, cx) != Sort::Nat {
+                        return Err("compound assignment on usize: right operand of unknown kind".into());
+                    }
+                    let v = self.expr(&b.right, cx)?;
+                    self.flush(cx, lines);
+                    return self.set_place(&b.left, cx, lines, |cur| format!("({cur} {op} {v})"));
+                }
                 let v = self.expr(&b.right, cx)?;
                 self.flush(cx, lines);
                 self.set_place(&b.left, cx, lines, |cur| format!("({cls} {cur} {v})"))
@@ -1396,6 +1435,9 @@ impl Translator {
                         cx.reads.push(segs[0].clone());
                         return Ok(lean_ident(&segs[0]));
                     }
+                    if segs[0] == "None" {
+                        return Ok("none".into());
+                    }
                     return Err(format!("unknown identifier {}", segs[0]));
                 }
                 if segs == ["f64", "EPSILON"] || segs == ["std", "f64", "EPSILON"] || segs == ["core", "f64", "EPSILON"] {
@@ -1455,7 +1497,11 @@ impl Translator {
             }
             Expr::Array(a) => {
                 let n = a.elems.len();
-                if n == 0 || n > 16 {
+                if n == 0 {
+                    // `&[]`: the empty slice (a list; an `[f64; 0]` does not exist in the model)
+                    return Ok("[]".into());
+                }
+                if n > 16 {
                     return Err("array literal length".into());
                 }
                 let mut parts = vec![];
@@ -1549,6 +1595,9 @@ impl Translator {
         let mut args = vec![];
         for a in &c.args {
             args.push(self.expr(a, cx)?);
+        }
+        if segs.len() == 1 && segs[0] == "Some" && args.len() == 1 && cx.scope_of("Some").is_none() {
+            return Ok(format!("(some {})", args[0]));
         }
         if segs.len() == 1 {
             // `Self(..)` constructs the impl's own tuple struct
@@ -1663,6 +1712,10 @@ impl Translator {
                 arity(0)?;
                 format!("(FloatLike.isNaN {recv})")
             }
+            "partial_cmp" => {
+                arity(1)?;
+                format!("(Iter.partialCmp {recv} {joined})")
+            }
             "neg" => {
                 arity(0)?;
                 format!("(PNeg.neg {recv})")
@@ -1732,6 +1785,8 @@ impl Translator {
                 "PP.Model.Piecewise.Ops",
                 "PP.Model.Piecewise.Approx",
             ],
+            "Piecewise/Evaluator" => vec!["PP.Core.Iter", "PP.Model.Piecewise.Evaluate"],
+            "Piecewise/Merge" => vec!["PP.Core.Iter", "PP.Model.Types"],
             "Linear/Loops" => vec!["PP.Core.Iter", "PP.Model.Linear.Fns"],
             "Spline/Loops" => vec!["PP.Core.Iter", "PP.Model.Spline.Fns"],
             _ => vec!["PP.Model.Types"],
@@ -1977,6 +2032,8 @@ impl Translator {
             "Spline/Fns", "Linear/Fns",
             // loop subset
             "Poly/Loops", "Piecewise/Loops", "Linear/Loops", "Spline/Loops",
+            // control flow with effects (always written, so that a stale file never survives a source change)
+            "Piecewise/Evaluator", "Piecewise/Merge",
         ];
         let mut names: BTreeSet<String> = all_files.iter().map(|s| s.to_string()).collect();
         names.extend(self.chunks.keys().cloned());
